@@ -90,6 +90,9 @@ def _compare(chk: Check, cls: Cls, fw: Func, fr: Func, w: t.List[Item], r: t.Lis
         if bool(a.optional) != bool(b.optional):
             chk.ob("O1", site, False, f"{where}: {'written conditionally (' + str(a.optional) + ') but always read' if a.optional else 'always written but read conditionally (' + str(b.optional) + ')'}")
             continue
+        if b.optional:
+            bad = _not_presence_tests(b.tests, getattr(chk, "_rs_readers", set()), getattr(chk, "_rs_headers", set()))
+            chk.ob("O1", site, not bad, f"{where}: read exactly when an element is present" if not bad else f"{where}: unpack reads {b.field} only when '{bad}' holds as well: a value that pack writes can fail that test, so decode(encode(x)) loses or changes it")
         if a.kind in ("seq", "set", "repeat"):
             _compare(chk, cls, fw, fr, a.children, b.children, ctor, repo, f"{path}[{i}]", in_repeat or a.kind == "repeat")
             if a.kind != "repeat":
@@ -118,6 +121,37 @@ def _compare(chk: Check, cls: Cls, fw: Func, fr: Func, w: t.List[Item], r: t.Lis
             chk.ob("O1", site, okc, f"{where}: nested {b.cls}" if okc else f"{where}: field {wf} is a {inner[1].name if inner[0] == 'cls' else inner} but is decoded with {b.cls}.unpack")
 
 
+def _not_presence_tests(tests: t.List[t.Tuple[ast.expr, bool]], readers: t.Set[str], headers: t.Set[str]) -> t.Optional[str]:
+    """The conditions under which an optional element is read may only ask whether an element is there and which tag it
+    has: `reader` (non empty), `<peeked header>.tag ... == ...`.  Returns the text of the first other conjunct."""
+    from sa.pathsum import canon_test
+
+    def bad(e: ast.expr, pol: bool) -> t.Optional[str]:
+        e, pol = canon_test(e, pol)
+        if isinstance(e, ast.BoolOp) and (isinstance(e.op, ast.And) and pol or isinstance(e.op, ast.Or) and not pol):
+            for v in e.values:
+                r = bad(v, pol)
+                if r:
+                    return r
+            return None
+        if isinstance(e, ast.Name) and e.id in readers and pol:
+            return None
+        if isinstance(e, ast.Compare) and len(e.ops) == 1 and (isinstance(e.ops[0], (ast.Eq, ast.Is)) and pol or isinstance(e.ops[0], (ast.NotEq, ast.IsNot)) and not pol):
+            for side in (e.left, e.comparators[0]):
+                txt = unparse(side)
+                if any(txt == f"{h}.tag" or txt.startswith(f"{h}.tag.") for h in headers):
+                    return None
+        if isinstance(e, ast.Compare) and len(e.ops) == 1 and isinstance(e.left, ast.Call) and unparse(e.left.func) == "len" and e.left.args and unparse(e.left.args[0]) in readers:
+            return None  # len(reader) > 0 style emptiness test
+        return ("" if pol else "not ") + unparse(e)
+
+    for e, pol in tests:
+        r = bad(e, pol)
+        if r:
+            return r
+    return None
+
+
 def shape_agreement(repo: Repo, chk: Check, cls: Cls) -> None:
     fw, fr = cls.methods.get("pack"), cls.methods.get("unpack")
     if fw is None or fr is None:
@@ -137,6 +171,8 @@ def shape_agreement(repo: Repo, chk: Check, cls: Cls) -> None:
     chk.table(f"{cls.name} shape", [i.describe() for i in w])
     ctor = _ctor_fields(repo, fr, cls, rs.node)
     chk._rs_node = rs.node  # type: ignore[attr-defined]
+    chk._rs_readers = {k for k in rs.readers if k.isidentifier()}  # type: ignore[attr-defined]
+    chk._rs_headers = set(rs.header_tests)  # type: ignore[attr-defined]
     _compare(chk, cls, fw, fr, w, r, ctor, repo)
     for name, stmt in rs.assigned_after_read:
         chk.ob("O1", Site.of(fr, stmt), False, f"{cls.name}.unpack changes '{name}' after reading it: decode(encode(x)) no longer returns the value that was encoded")
